@@ -75,8 +75,20 @@ func (x *Exec) abort(f string, a ...interface{}) {
 
 func (x *Exec) oblige(st *State, kind, label string, cond Term, tags []string, pos token.Pos) {
 	if cond.S == "true" {
-		// still record it as discharged trivially? keep the log small: count it.
+		// The condition folded to true while it was generated. Contract clauses (not the implicit
+		// safety conditions) are still recorded, so that the baseline notices when a clause stops
+		// producing obligations; no solver is called for them.
 		x.trivial++
+		if kind == "assert" || kind == "ensures" || kind == "onpanic" || kind == "call-pre" {
+			fc := x.curFunc
+			name := fmt.Sprintf("%s#%s:%s", fc.key, kind, label)
+			ob := &Obligation{Name: name, Kind: kind, Func: fc.key, Tags: tags, Pos: x.prog.posString(pos), Cond: cond}
+			ob.status = "unsat"
+			ob.result = SolveResult{Status: "unsat", Solver: "trivial"}
+			ob.pre = true
+			ob.node = &LogNode{Kind: KOblige, Name: name, T: cond, Obl: ob, Parent: st.log}
+			x.obls = append(x.obls, ob)
+		}
 		return
 	}
 	fc := x.curFunc
